@@ -53,6 +53,11 @@ func (kr NumKeyRange) String() string {
 
 // ParseNumSharding parse num shard
 func ParseNumSharding(Locations []int, TableRowLimit int) ([]NumKeyRange, error) {
+	// every sub table must own a non-empty key range [i*limit, (i+1)*limit)
+	if TableRowLimit <= 0 {
+		return nil, fmt.Errorf("table_row_limit must be positive, got %d", TableRowLimit)
+	}
+
 	tableCount := 0
 	length := len(Locations)
 
